@@ -1,7 +1,7 @@
 #!/bin/sh
-# Build the verifier from vendored sources only (offline).
+# Build the verifier from vendored sources only (offline).  The binary is replaced atomically.
 set -e
 cd "$(dirname "$0")/.."
 export GOFLAGS=-mod=vendor GOPROXY=off GOSUMDB=off GOTOOLCHAIN=local CGO_ENABLED=0
-(cd govc && go build -o ../bin/govc .)
+(cd govc && go build -o ../bin/govc.new . && mv ../bin/govc.new ../bin/govc)
 echo "setup ok"
